@@ -244,6 +244,32 @@ def c17(ctx):
                     if not (isinstance(vres, tuple) and vres[0] is False):
                         ctx.violation('spec', f'verify_path accepted a size-only entry of size {hint} for a file of {ln} bytes (fstat reports {hint}): {str(vres)[:120]}',
                                       {'length': ln, 'st_size': hint})
+        # the command-line front end: `gemato hash -H <names in any order> file...` prints, per file, one DATA line whose
+        # name/value pairs are the digests under the algorithms those names denote
+        import contextlib
+        import gemato.cli
+        p = os.path.join(td, 'c')
+        data = big[:70001]
+        open(p, 'wb').write(data)
+        libname = {'MD5': 'md5', 'SHA1': 'sha1', 'SHA256': 'sha256', 'SHA512': 'sha512', 'BLAKE2B': 'blake2b', 'BLAKE2S': 'blake2s',
+                   'SHA3_256': 'sha3_256', 'SHA3_512': 'sha3_512', 'RMD160': 'ripemd160'}
+        for names in (['SHA512', 'BLAKE2B'], ['SHA256', 'MD5', 'SHA1'], ['SHA1'], ['BLAKE2B', 'SHA512'], ['SHA3_512', 'SHA3_256', 'BLAKE2S', 'BLAKE2B'],
+                      ['SHA512', 'SHA256', 'SHA1', 'MD5']):
+            names = [n for n in names if libname[n] in hashlib.algorithms_available]
+            out = io.StringIO()
+            k += 1
+            try:
+                with contextlib.redirect_stdout(out):
+                    rc = gemato.cli.main(['gemato', 'hash', '-H', ' '.join(names), p])
+            except BaseException as e:
+                rc = 'exception:' + type(e).__name__
+            f = out.getvalue().split()
+            pairs = dict(zip(f[3::2], f[4::2]))
+            want = {n: ref_digest(libname[n], data) for n in names}
+            if rc not in (0, None) or f[:1] != ['DATA'] or f[2:3] != [str(len(data))] or pairs != want:
+                wrong = sorted(n for n in names if pairs.get(n) != want[n])
+                ctx.violation('spec', f'gemato hash -H "{" ".join(names)}" (exit {rc}): size field {f[2:3]}, wrong or missing digests for {wrong}',
+                              {'hashes': names, 'output': out.getvalue()[:600]})
         # coreutils as an independent reference
         p = os.path.join(td, 'g')
         open(p, 'wb').write(big[:70001])
